@@ -31,9 +31,7 @@ def seeded_table():
         meta = json.load(open(mp))
         n += 1
         det = meta.get('detected_by', '')
-        ok = 'exit 1' in det or det.startswith('./check') and 'not detected' not in det and 'NOT DETECTED' not in det and 'MISSED' not in det.split(';')[0]
-        if 'NOT DETECTED' in det or det.startswith('not detected'):
-            ok = False
+        ok = bool(meta.get('detected', 'exit 1' in det and 'NOT DETECTED' not in det.split(';')[0]))
         caught += bool(ok)
         tests = ''
         tp = os.path.join(base, m, 'tests.json')
